@@ -14,6 +14,9 @@ for t, con in list(reg.contracts.items()) + [(c.target, c) for c in reg.lemmas]:
     print(f"== {t}: paths={r.paths} dead={r.dead_paths} secs={r.secs:.2f} canary={r.canary_ok}")
     for o in r.obligations.values():
         print(f"   {o.status:8s} {o.name}  q={o.queries} {o.secs:.2f}s {o.cex if o.status=='sat' else ''} {o.reason}")
-    for u in r.unsupported: print("   UNSUPPORTED", u)
-    for e in r.errors: print("   ERROR", e)
+    seen=set()
+    for u in r.unsupported:
+        if u["what"] in seen: continue
+        seen.add(u["what"]); print("   UNSUPPORTED", u["what"], u["decisions"][-4:])
+    for e in r.errors[:3]: print("   ERROR", e[:600])
     if r.inlined: print("   inlined:", sorted(r.inlined))
